@@ -185,14 +185,29 @@ def run_unit(tier):
     return {'verus': v, 'kani': k, 'native': n, 'binary': binary, 'wall_s': time.time() - t0}
 
 
+def companions(vf):
+    cands = []
+    for pat, hs in CEX_MAP:
+        if re.search(pat, vf['container']):
+            cands += hs
+    return cands
+
+
+def companions_all_passed(vf, unit):
+    """True iff this impl has companion Kani harnesses (complete for their instantiation), at least one of them ran in
+    this run and every one that ran verified.  A failed generic Verus obligation is then a lost PROOF, not a
+    demonstrated violation: the impl is parametric in its type arguments and behaves correctly on the full domain
+    of the instantiation -> inconclusive, never an alarm."""
+    cands = companions(vf)
+    res = unit['kani']['results']
+    ran = [h for h in cands if h in res and res[h]['status'] is not None]
+    return bool(ran) and all(res[h]['status'] == 'SUCCESSFUL' for h in ran)
+
+
 def find_cex_for_verus_failure(vf, unit):
     """A failing input for a failed Verus obligation, taken from the harnesses of the same impl and
     replayed on the real code.  Returns dict or None."""
-    cont = vf['container']
-    cands = []
-    for pat, hs in CEX_MAP:
-        if re.search(pat, cont):
-            cands += hs
+    cands = companions(vf)
     # 1. Kani counterexamples of those harnesses
     for kf in unit['kani']['failures']:
         if kf['harness'] in cands:
